@@ -352,6 +352,9 @@ func c04RunInner(c c04Case) (classes []string, nontrivial bool, err error) {
 		cfg := []byte(fmt.Sprintf(`{"model_format":"gguf","model_family":"llama","model_families":["llama"],"model_type":"1","file_type":"F32","architecture":"amd64","os":"linux","rootfs":{"type":"layers","diff_ids":["%d"]}}`, i%2))
 		m := &frModel{Layers: []frBlob{{Digest: frDigest(g), Data: g, MediaType: "application/vnd.ollama.image.model"}, lic},
 			Config: &frBlob{Digest: frDigest(cfg), Data: cfg, MediaType: "application/vnd.docker.container.image.v1+json"}}
+		if i%3 == 1 { // some published models carry a zero-length layer (an empty template): the empty blob is a blob like any other
+			m.Layers = append(m.Layers, frBlob{Digest: frDigest(nil), Data: []byte{}, MediaType: "application/vnd.ollama.image.template"})
+		}
 		reg.publish(key, m)
 	}
 	var s Server
@@ -411,6 +414,9 @@ func c04RunInner(c c04Case) (classes []string, nontrivial bool, err error) {
 			}
 			if t := c04Texts[o.Lic%len(c04Texts)]; t != "" {
 				req["license"] = t
+			} else if o.Param == 2 && o.Sys == 2 {
+				req["license"] = []string{"", "LICENSE B"} // a list with an empty entry makes a zero-length layer
+				e.cls["create_with_empty_layer"] = true
 			}
 			if o.Param > 0 {
 				req["parameters"] = map[string]any{"temperature": float64(o.Param)}
